@@ -74,6 +74,42 @@ def run_property(pid: str, tier: str, repo: str, only_key: str | None = None):
     return ctx, mod, obs, rule_docs, errors, extra, time.time() - t0
 
 
+def implemented_properties() -> list[str]:
+    return sorted(p.stem.upper() for p in (VERIF / "hmslint" / "rules").glob("c[0-9][0-9].py"))
+
+
+def run_all(repo: str, props: list[str] | None = None) -> dict:
+    """Run every property's rules against `repo` sharing one parsed program / call graph.
+    Returns {pid: {"violations": [rule...], "undecided": [text...], "keys": [...]}}."""
+    ctx = Ctx(repo)
+    out = {}
+    for pid in props or implemented_properties():
+        mod = importlib.import_module(f"hmslint.rules.{pid.lower()}")
+        viol, und, keys = set(), [], []
+        for rule_id, fn, min_subjects in mod.RULES:
+            try:
+                got = list(fn(ctx))
+            except Inconclusive as e:
+                und.append(f"{rule_id}: {e}")
+                continue
+            except AnalysisError as e:
+                und.append(f"{rule_id}: {e}")
+                continue
+            except Exception as e:  # noqa: BLE001
+                und.append(f"{rule_id}: crash {e!r}")
+                continue
+            if len(got) < min_subjects:
+                und.append(f"{rule_id}: {len(got)} < {min_subjects} subjects")
+            for o in got:
+                if o.status == VIOLATION:
+                    viol.add(o.rule)
+                    keys.append(o.key)
+                elif o.status == INCONCLUSIVE:
+                    und.append(f"{o.rule}: {o.detail[:100]}")
+        out[pid] = {"violations": sorted(viol), "undecided": und, "keys": keys}
+    return out
+
+
 def main(argv=None) -> int:
     ap = argparse.ArgumentParser()
     ap.add_argument("property")
